@@ -17,9 +17,9 @@ import (
 // RSess is the reference model's view of one session (plain maps; only what properties state).
 type RSess struct {
 	UP, CP  uint64
-	Node    string // owning node id
-	Peer    int    // peer index the node is associated from
-	Inc     int    // incarnation number of this UP SEID
+	Node    string           // owning node id
+	Peer    int              // peer index the node is associated from
+	Inc     int              // incarnation number of this UP SEID
 	Created map[mdp.Key]bool // Create IE seen, not yet successfully removed
 	Ever    map[mdp.Key]bool // Create IE seen in this session at any time
 }
